@@ -217,18 +217,80 @@ class Args:
         # an InMemoryGeff always carries metadata; "nometa" only means the optional `metadata` argument
         # of has_seg_ids_at_time_points is not given
         self.geff = {"metadata": self.md if self.md is not None else mk_metadata(None)}
+        self.refresh()
+
+    def refresh(self):
         self.objs = {"segmentation": self.seg, "scale": self.scale, "coords": self.coords, "seg_ids": self.ids,
-                     "time_points": self.tps, "metadata": self.md}
+                     "time_points": self.tps, "metadata": self.geff["metadata"]}
+
+    def set_md(self, new):
+        if self.md is not None:
+            self.md = new
+        self.geff["metadata"] = new
+        self.refresh()
+
+    def current_axes(self, kind):
+        """the axes as the metadata object holds them NOW (fields, not any cache)"""
+        md = self.md if kind == "time" else self.geff["metadata"]
+        if md is None:
+            return "nometa"
+        if md.axes is None:
+            return None
+        return [{"type": a.type, "max": a.max} for a in md.axes]
+
+    def apply_edit(self, e):
+        """a legitimate change the caller makes to the SAME objects between two calls"""
+        import copy
+
+        import geff_spec
+        from geff_spec.utils import compute_and_add_axis_min_max
+
+        md = self.geff["metadata"]
+        k = e["edit"]
+        if k == "axis_max":
+            ax, mx = md.axes[e["i"]], e["max"]
+            ax.min = None if mx is None else min(0.0, float(mx))
+            ax.max = mx
+        elif k == "axis_type":
+            md.axes[e["i"]].type = e["type"]
+        elif k == "axes_reverse":
+            md.axes.reverse()
+        elif k == "axes_replace":
+            md.axes = [geff_spec.Axis(name=f"b{i}", type=a.get("type"), max=a.get("max"),
+                                      min=None if a.get("max") is None else min(0.0, float(a["max"])))
+                       for i, a in enumerate(e["axes"])]
+        elif k == "model_copy":
+            self.set_md(md.model_copy())
+        elif k == "deepcopy":
+            self.set_md(copy.deepcopy(md))
+        elif k == "recompute":
+            props = {ax.name: {"values": np.asarray([min(0.0, float(mx)), float(mx)]), "missing": None}
+                     for ax, mx in zip(md.axes, e["maxima"], strict=True)}
+            self.set_md(compute_and_add_axis_min_max(md, props))
+        elif k == "relabel":
+            self.seg[tuple(e["idx"])] = e["label"]
+        elif k == "zero_slab":
+            self.seg[-1] = 0
+        elif k == "extend_coords":
+            self.coords.append(list(e["coord"]))
+            self.ids.append(e["id"])
+        elif k == "extend_time":
+            self.tps.append(e["t"])
+            self.ids.append(e["id"])
+        elif k == "scale_set":
+            self.scale[e["i"]] = e["value"]
+        else:
+            raise ValueError(k)
 
     def effective(self, kind):
         """the plain single-call case these objects denote (what oracle and model are asked about)"""
         c = self.case
-        e = {"kind": kind, "axes": c.get("axes")}
-        shape = c.get("shape", c.get("seg_shape"))
+        e = {"kind": kind, "axes": self.current_axes(kind)}
+        shape = [int(n) for n in self.seg.shape]
         if kind in ("in_bounds", "axes_match"):
             e["seg_shape"] = shape
         else:
-            e["shape"], e["flat"] = shape, c["flat"]
+            e["shape"], e["flat"] = shape, [int(v) for v in self.seg.ravel().tolist()]
         if kind in ("in_bounds", "coords"):
             e["scale"] = None if self.scale is None else [plain(x) for x in (self.scale.tolist() if isinstance(self.scale, np.ndarray) else self.scale)]
         if kind == "coords":
@@ -265,11 +327,20 @@ def run_calls(case):
     One call for an ordinary case; for a history (`calls`: list of kinds) the same argument objects are
     handed to every call.  After every call each argument is compared with its snapshot."""
     args = Args(case)
-    kinds = case.get("calls") or [case["kind"]]
+    steps = case.get("steps") or case.get("calls") or [case["kind"]]
     out, extra = [], []
     first = {}
-    for n, kind in enumerate(kinds):
-        eff_now = args.effective(kind)
+    edited = False
+    n = -1
+    for step in steps:
+        if isinstance(step, dict):               # the caller edits the same objects between two calls
+            args.apply_edit(step)
+            first = {}
+            edited = True
+            continue
+        kind = step
+        n += 1
+        eff_now = args.effective(kind)           # the CURRENT contents: what this call is judged by
         before = {k: snap(v) for k, v in args.objs.items()}
         im = args.invoke(kind, eff_now)
         after = {k: snap(v) for k, v in args.objs.items()}
@@ -281,11 +352,22 @@ def run_calls(case):
             first[kind] = (eff_now, im)
             eff_ref = eff_now
         else:
-            # every call is judged by the verdict for the arguments as first handed to this function
+            # no edit since the previous call of this function: same verdict, judged by the contents as
+            # first handed over (an in-place modification by the function must not move the goal)
             eff_ref, im0 = first[kind]
             if im != im0:
                 extra.append(("C19:history-dependent-verdict",
                               f"call {n} ({kind}) with the same argument objects returned {im} after {im0}", im, im0))
+        if edited:
+            # the same contents in freshly built objects: the verdict must not depend on what was
+            # checked before the edit
+            fresh = dict(eff_ref)
+            fresh_args = Args(fresh)
+            im_fresh = fresh_args.invoke(kind, fresh_args.effective(kind))
+            if im_fresh != im:
+                extra.append(("C19:history-dependent-verdict",
+                              f"call {n} ({kind}) after an edit of its arguments returned {im}; the same contents in "
+                              f"fresh objects give {im_fresh}", im, im_fresh))
         out.append((kind, {k: v for k, v in eff_ref.items() if k != "coord_strs"}, im, oracle(eff_ref)))
     return {"calls": out, "extra": extra}
 
@@ -722,6 +804,71 @@ def histories(cases, every):
         yield h
 
 
+def gen_edit_histories(ck):
+    """histories in which the caller legitimately changes the SAME objects between two calls"""
+    shapes = [[1, 1, 1], [2, 3, 1], [3, 2, 2], [1, 2, 1, 3]] if ck.quick else [[1, 1, 1], [2, 3, 1], [3, 2, 2], [1, 2, 1, 3], [2, 2, 2], [3, 1, 2, 2]]
+    k = 0
+    for shape in shapes:
+        nd = len(shape)
+        for scale in (None, [1.0] * nd, [0.5, 1.0, 2.0, 4.0][:nd], [2] * nd):
+            sc = scale if scale is not None else [1.0] * nd
+            inside = [(n - 1) * s for n, s in zip(shape, sc)]
+            for j in range(nd):
+                ext = shape[j]
+                for m0, m1 in ((ext - 1, ext), (ext, ext - 1), (0, ext), (ext, 0), (ext - 1, None), (None, ext - 1), (ext - 1, ext - 1),
+                               (ext - 1, ext + 3)):
+                    v0 = None if m0 is None else m0 * sc[j]
+                    v1 = None if m1 is None else m1 * sc[j]
+                    axes = [{"type": "time" if i == 0 else "space", "max": (v0 if i == j else inside[i])} for i in range(nd)]
+                    after = [v1 if i == j else inside[i] for i in range(nd)]
+                    set1 = {"edit": "axis_max", "i": j, "max": v1}
+                    set0 = {"edit": "axis_max", "i": j, "max": v0}
+                    mechs = [[set1], [{"edit": "model_copy"}, set1], [{"edit": "deepcopy"}, set1],
+                             [{"edit": "axes_replace", "axes": [{"type": a["type"], "max": m} for a, m in zip(axes, after)]}]]
+                    if v1 is not None:
+                        mechs.append([{"edit": "recompute", "maxima": after}])
+                    for mech in mechs:
+                        k += 1
+                        base = {"kind": "history", "seg_shape": shape, "axes": axes, "scale": scale,
+                                "flavour": {"scale": SCALE_FL[k % 4]} if k % 2 else {}}
+                        yield {**base, "steps": ["in_bounds", *mech, "in_bounds"]}
+                        if k % 3 == 0:
+                            yield {**base, "steps": ["in_bounds", "axes_match", *mech, "in_bounds", set0, "in_bounds", "in_bounds"]}
+            axes = [{"type": "space", "max": m} for m in inside]
+            yield {"kind": "history", "seg_shape": shape, "axes": axes, "scale": scale,
+                   "steps": ["in_bounds", "axes_match", {"edit": "axes_reverse"}, "in_bounds", "axes_match"]}
+            yield {"kind": "history", "seg_shape": shape, "axes": axes, "scale": scale,
+                   "steps": ["axes_match", "in_bounds", {"edit": "axes_replace", "axes": axes[:-1]}, "axes_match", "in_bounds",
+                             {"edit": "axes_replace", "axes": axes + [{"type": "space", "max": 0}]}, "axes_match", "in_bounds",
+                             {"edit": "axes_replace", "axes": axes}, "axes_match", "in_bounds"]}
+            if scale is not None and not isinstance(scale[0], int):
+                # the caller rescales: same scale list object, new factor
+                yield {"kind": "history", "seg_shape": shape, "axes": axes, "scale": scale,
+                       "steps": ["in_bounds", {"edit": "scale_set", "i": 0, "value": sc[0] / 4}, "in_bounds",
+                                 {"edit": "scale_set", "i": 0, "value": sc[0]}, "in_bounds"]}
+        # ---- label volume edited in place, lists extended, time axis retyped
+        flat = labels_for(shape, 0)
+        last = [n - 1 for n in shape]
+        lab_last, lab0 = flat[-1], flat[0]
+        for tfl in (None, "array", "tuple"):
+            base = {"kind": "history", "shape": shape, "flat": flat, "axes": time_axes(nd, 0), "tps": [last[0], 0], "ids": [lab_last, lab0],
+                    "coords": [last, [0] * nd], "scale": None, "flavour": {"tps": tfl} if tfl else {}}
+            yield {**base, "steps": ["time", "coords", {"edit": "relabel", "idx": last, "label": 999}, "time", "coords",
+                                     {"edit": "relabel", "idx": last, "label": lab_last}, "time", "coords"]}
+            yield {**base, "steps": ["coords", "time", {"edit": "zero_slab"}, "coords", "time"]}
+        base = {"kind": "history", "shape": shape, "flat": flat, "axes": time_axes(nd, 0), "tps": [0], "ids": [lab0],
+                "coords": [[0] * nd], "scale": None}
+        yield {**base, "steps": ["coords", {"edit": "extend_coords", "coord": last, "id": lab_last}, "coords",
+                                 {"edit": "extend_coords", "coord": [n for n in shape], "id": 1}, "coords"]}
+        yield {**base, "steps": ["time", {"edit": "extend_time", "t": last[0], "id": lab_last}, "time",
+                                 {"edit": "extend_time", "t": shape[0], "id": 1}, "time"]}
+        if nd >= 2 and shape[0] != shape[1]:
+            # the time axis moves: axis 1 becomes the time axis
+            yield {**base, "tps": [max(shape[0], shape[1]) - 1], "ids": [flat[-1]],
+                   "steps": ["time", {"edit": "axis_type", "i": 0, "type": "space"}, {"edit": "axis_type", "i": 1, "type": "time"}, "time",
+                             {"edit": "axis_type", "i": 0, "type": "time"}, "time"]}
+
+
 def corpus():
     d = common.VERIF / "harness" / "corpus" / PROP
     for f in sorted(d.glob("*.json")):
@@ -797,7 +944,11 @@ def run(ck: common.Check):
                "(thorough: every 2nd) time/coords/in_bounds case again in another argument flavour (tuples, numpy scalars, 1-D and "
                "2-D float64/float32/int64 arrays, read-only arrays, tuples of arrays) + histories (every 7th, thorough every 3rd "
                "time/coords case: the same function 2-3 times, and coords/time/in_bounds/axes_match interleaved, on the same "
-               "argument objects, arguments snapshotted around every call); non-trivial = all cases except the empty lists; distinct = distinct canonical JSON")
+               "argument objects, arguments snapshotted around every call) + edit histories: between two calls the caller changes the "
+               "same objects (ax.max/ax.min/ax.type assigned, metadata.axes reversed or replaced, metadata model_copy()/deepcopy/"
+               "compute_and_add_axis_min_max after a first check, scale entry reassigned, label volume relabelled or zeroed in "
+               "place, coords/time-point/seg-id lists extended), each call judged by the specification for the current contents "
+               "and compared with the same contents in freshly built objects; non-trivial = all cases except the empty lists; distinct = distinct canonical JSON")
     cases = list(corpus())
     ck.extra["corpus_cases"] = len(cases)
     gen = []
@@ -810,6 +961,9 @@ def run(ck: common.Check):
     narrow = list(gen_narrow())
     variants = list(flavour_variants(gen, 3 if ck.quick else 2))
     hist = list(histories(gen + narrow, 7 if ck.quick else 3))
+    edits = list(gen_edit_histories(ck))
+    hist += edits
+    ck.extra["edit_history_cases"] = len(edits)
     cases += gen + narrow + variants + hist
     ck.extra["narrow_dtype_cases"] = len(narrow)
     ck.extra["flavour_variant_cases"] = len(variants)
@@ -842,7 +996,7 @@ def run(ck: common.Check):
                 n_sens += 1
             r = classify(eff, im, exp)
             if r is not None:
-                ck.fail(r[0], r[1] + (f" [call {n} of {c['calls']}]" if "calls" in c else ""), c, im,
+                ck.fail(r[0], r[1] + (f" [call {n} of {c.get('steps') or c['calls']}]" if ("calls" in c or "steps" in c) else ""), c, im,
                         {k: v for k, v in exp.items() if k != "sensitive"})
     if answers is not None:
         for (idx, n), mo in zip(where, answers):
@@ -870,7 +1024,8 @@ def run(ck: common.Check):
         "flavour of the arguments (lists, tuples, numpy scalars, 1-D/2-D arrays of several dtypes, read-only arrays) and "
         "argument aliasing are below the model and exercised by the correspondence: every call is checked against the "
         "specification, every argument is snapshotted before and compared after each call, and histories repeat calls on "
-        "the same argument objects",
+        "the same argument objects, and edit histories change those objects between calls (the model is a pure function of the "
+        "current contents; caching inside argument objects is below the model)",
         "bool label volumes are called with seg ids inside the int64 range only (np.bool_ != <larger Python int> raises "
         "OverflowError inside numpy)",
         "the check graph_is_in_seg_bounds looks at axis maxima only (not minima), as documented",
